@@ -4,6 +4,7 @@ import (
 	"bytes"
 	"container/heap"
 	"fmt"
+	"reflect"
 	"strconv"
 	"strings"
 )
@@ -183,6 +184,11 @@ func (l *orderColumnsRow) Less(r *orderColumnsRow) bool {
 }
 
 func (l *orderColumnsRow) compare(tp Type, lval, rval Column, reverse bool) int {
+	if reflect.TypeOf(lval) != reflect.TypeOf(rval) {
+		// Values of different kinds (a JSON field that is a number in one
+		// row and text in another) are not ordered relative to each other
+		return 0
+	}
 	switch tp {
 	case TSTR:
 		return l.compareBytes(lval, rval, reverse)
